@@ -101,6 +101,9 @@ theorem kf_accessIndex (l i : Val) (h : Bool) : KeepsFeeder (accessIndex l i h) 
   unfold accessIndex
   repeat (any_goals (first | split | exact kf_heapSlice _ | exact kf_heapMap _ | kf_leaf1 | kf_leaf2 | refine kf_bind ?_ (fun _ => ?_) | dsimp only))
 theorem kf_memberOf (c : Val) (name : Bytes) : KeepsFeeder (memberOf c name) := ⟨fun _ => rfl⟩
+theorem kf_mapKeyMissing (l i : Val) : KeepsFeeder (mapKeyMissing l i) := by
+  unfold mapKeyMissing
+  repeat (any_goals (first | split | (with_reducible exact kf_heapMap _) | kf_leaf1 | kf_leaf2 | refine kf_bind ?_ (fun _ => ?_) | dsimp only))
 
 attribute [local irreducible] Store.newChild Store.injectHelpers Store.newRoot
 
@@ -172,7 +175,7 @@ macro "keepsfeeder_ih" ih:ident : tactic =>
     | kf_ih1 $ih
     | kf_ih2 $ih
     | exact kf_heapSlice _ | exact kf_heapMap _ | exact kf_renderVal _ | exact kf_applyOpOut _ _
-    | exact kf_applyInfix _ _ _ | exact kf_updateIndex _ _ _ | exact kf_accessIndex _ _ _ | exact kf_memberOf _ _
+    | exact kf_applyInfix _ _ _ | exact kf_updateIndex _ _ _ | exact kf_accessIndex _ _ _ | exact kf_memberOf _ _ | exact kf_mapKeyMissing _ _
     | (refine kf_forM _ _ (fun _ => ?_)) | (refine kf_mapM _ _ (fun _ => ?_))
     | (refine kf_withCtx _ _ ?_)
     | refine kf_attempt ?_
